@@ -26,7 +26,7 @@ func init() { core.Register(c14{}) }
 
 func (c14) ID() string { return "C14" }
 func (c14) Rule() string {
-	return "plans: 1-3 writer and 1-3 reader tasks (separate FileCache per task = processes, or one shared = threads) over 1-3 URLs, each Set with a unique real CRL (300 B - 200 KiB), scheduled at system-call granularity from the tape, with crash / short-write / chunked-write / I/O-error faults; the first 36 plans of a batch are stratified over the 9 crash points of a single store x 4 situations. non-trivial: a Get overlapped a Set of the same URL by another task, or a writer crashed, or a fault fired; distinct: hash of the global sequence (task role, op kind, fault kind) at scheduling points plus every Get outcome"
+	return "plans (one in 211 with a 25 MiB bundle): 1-3 writer and 1-3 reader tasks (separate FileCache per task = processes, or one shared = threads) over 1-3 URLs, each Set with a unique real CRL (300 B - 200 KiB), scheduled at system-call granularity from the tape, with crash / short-write / chunked-write / I/O-error faults; the first 36 plans of a batch are stratified over the 9 crash points of a single store x 4 situations. non-trivial: a Get overlapped a Set of the same URL by another task, or a writer crashed, or a fault fired; distinct: hash of the global sequence (task role, op kind, fault kind) at scheduling points plus every Get outcome"
 }
 func (c14) Components() map[string]string {
 	return map[string]string{
@@ -155,6 +155,16 @@ func (c14) Gen(r *rand.Rand, tier string, idx int) *core.Plan {
 	for rd := 0; rd < nr; rd++ {
 		for i, n := 0, 1+r.IntN(4); i < n; i++ {
 			p.Ops = append(p.Ops, core.Op{Task: nw + rd, Kind: "get", S: []string{urls[r.IntN(nURL)]}})
+		}
+	}
+	if idx%211 == 100 {
+		// one bundle near the largest CRL the fetcher admits (32 MiB of DER; a third more once stored as base64)
+		for i := range p.Ops {
+			if p.Ops[i].Kind == "set" {
+				p.Ops[i].I[1] = 25<<20 + int64(idx%4096)
+				p.World["huge"] = 1
+				break
+			}
 		}
 	}
 	// faults: 30% of runs fault-free
